@@ -66,7 +66,9 @@ def Ring.at (r : Ring) (p : Nat) : Option Event := (r.buf[p % r.cap]?).join
 def matchSel (sel : Option (String × String)) (r : Res) : Bool :=
   match sel with
   | none => true
-  | some (k, v) => r.labels.lookup k == some v
+  | some (k, v) =>
+    -- the pseudo key `@id` stands for an ID query: the resource's id starts with `v` (IDRegexpMatch("^v"))
+    if k == "@id" then r.id.startsWith v else r.labels.lookup k == some v
 
 /-- the filter closure of WatchAll (collection.go:651) -/
 def rewrite (sel : Option (String × String)) (e : Event) : Option Event :=
